@@ -265,6 +265,9 @@ func quiescent(c *Ctx, kind, shape, src string, resp *Resp) {
 	if resp.CallStack != 0 {
 		c.Violation(kind+":callstack:"+src, fmt.Sprintf("after a successful run the call stack still holds %d frame(s)\nprogram:\n%s", resp.CallStack, src), map[string]interface{}{"req": execReq(src)})
 	}
+	if resp.EvalDepth != 0 {
+		c.Violation(kind+":evaldepth:"+src, fmt.Sprintf("after a successful run the evaluator still counts %d level(s) of nesting (every handled exception / loop signal / error that left them behind brings the program closer to the interpreter's depth limit)\nprogram:\n%s", resp.EvalDepth, src), map[string]interface{}{"req": execReq(src)})
+	}
 	for id, st := range resp.Scopes {
 		if st[0] != 0 {
 			c.Violation(kind+":scope-depth:"+src, fmt.Sprintf("after a successful run module %s is left at scope depth %d (live symbols %d)\nprogram:\n%s", id, st[0], st[1], src), map[string]interface{}{"req": execReq(src)})
